@@ -129,8 +129,18 @@ Definition target_valence (a : satom) : option Z :=
   else if is "N"%string then (if c =? 0 then Some 3 else if c =? 1 then Some 4 else if c =? -1 then Some 2 else None)
   else if is "O"%string then (if c =? 0 then Some 2 else if c =? 1 then Some 3 else None)
   else if is "S"%string then (if c =? 0 then Some 2 else if c =? 1 then Some 3 else None)
-  else if is "P"%string then (if c =? 0 then Some 3 else if c =? 1 then Some 4 else None)
-  else None.     (* B, Al, Si, As, Se, Te and higher charges: not judged beyond "at most one double bond" *)
+  else if is "P"%string || is "As"%string then (if c =? 0 then Some 3 else if c =? 1 then Some 4 else None)
+  else if is "Se"%string || is "Te"%string then (if c =? 0 then Some 2 else if c =? 1 then Some 3 else None)
+  else None.     (* B, Al, Si and higher charges: not judged beyond "at most one double bond" *)
+
+(* group valence electrons and aromatic valences of the elements that can be aromatic (periodic-table facts) *)
+Definition doc_valence_electrons : list (str * Z) :=
+  map (fun '(e, v) => (lit e, v))
+      [("B", 3); ("Al", 3); ("C", 4); ("Si", 4); ("N", 5); ("P", 5); ("As", 5); ("O", 6); ("S", 6); ("Se", 6); ("Te", 6)]%string.
+Definition doc_aromatic_valences : list (str * list Z) :=
+  map (fun '(e, v) => (lit e, v))
+      [("B", [3]); ("Al", [3]); ("C", [4]); ("Si", [4]); ("N", [3; 5]); ("P", [3; 5]); ("As", [3; 5]);
+       ("O", [2; 4]); ("S", [2; 4]); ("Se", [2; 4]); ("Te", [2; 4])]%string.
 
 (* sigma: every bond counted once + the extra order of non-aromatic multiple bonds *)
 Definition sigma (row : list nslot) : Z :=
